@@ -297,6 +297,64 @@ def g3_dead_code(ctx: Ctx):
     redo = [s for s in walk_no_nested(fn) if isinstance(s, ast.Assign) and dotted(s.targets[0]) == 'self.def_use'
             and norm(s.value) == 'DefineUse.analyze(self.func)']
     ctx.check(len(redo) == 1, DCE, fn, q, 'def-use recomputed after every elimination round', 'stale def-use facts would be reused on the rewritten program')
+    _spliced_returns(ctx)
+
+
+def _spliced_returns(ctx: Ctx):
+    """A branch whose condition is a constant replaces its `if`.  When it ends in a `return`, what followed the `if` would
+    sit behind a `return`: the re-analysis of the next round (and the checker) refuse such a program, so the pass raises on
+    `if FAST: return x` / `return x + 1.0`.  `_Eliminator._visit_block` is evaluated, from its source, on blocks of three
+    statements whose middle one is rewritten to each shape: the statements after it are kept exactly when some path falls
+    through it -- dropping them otherwise is what makes the result a program, keeping them when one does is what keeps
+    its value."""
+    from ..lang import lang
+    from ..minipy import Interp, Obj
+    L = lang(ctx.repo)
+    meths = {n: f for n, (_, _, f) in ctx.repo.methods(DCE, '_Eliminator', inherited=False).items()}
+    fn = meths.get('_visit_block')
+    if fn is None:
+        raise ShapeError('_Eliminator._visit_block not found')
+
+    def blk(*stmts):
+        return Obj('StmtBlock', stmts=list(stmts))
+    ret = lambda: Obj('ReturnStmt', expr=None)                          # noqa: E731
+    asg = lambda tag: Obj('Assign', tag=tag)                            # noqa: E731
+    shapes = [
+        ('a return', lambda: [ret()], False),
+        ('an assignment, then a return', lambda: [asg('s'), ret()], False),
+        ('if/else, both arms returning', lambda: [Obj('IfStmt', cond=None, ift=blk(ret()), iff=blk(asg('t'), ret()))], False),
+        ('if/else, one arm returning', lambda: [Obj('IfStmt', cond=None, ift=blk(ret()), iff=blk(asg('t')))], True),
+        ('a one-armed if that returns', lambda: [Obj('If1Stmt', cond=None, body=blk(ret()))], True),
+        ('a while loop that returns', lambda: [Obj('WhileStmt', cond=None, body=blk(ret()))], True),
+        ('a for loop that returns', lambda: [Obj('ForStmt', target=None, iterable=None, body=blk(ret()))], True),
+        ('a with block that returns', lambda: [Obj('ContextStmt', target=None, ctx=None, body=blk(ret()))], False),
+        ('a with block holding a one-armed if', lambda: [Obj('ContextStmt', target=None, ctx=None, body=blk(Obj('If1Stmt', cond=None, body=blk(ret()))))], True),
+        ('an assignment', lambda: [asg('s')], True),
+    ]
+    for what, mk, falls in shapes:
+        for spliced in (True, False):
+            new = mk()
+            if not spliced and len(new) != 1:
+                continue
+            first, mid, last = asg('first'), Obj('IfStmt', cond=None, ift=blk(), iff=blk(), tag='mid'), asg('last')
+            me = Obj('_Eliminator', eliminated=False)
+
+            def visit(st, c, new=new, mid=mid, spliced=spliced):
+                if st is mid:
+                    return ((blk(*new) if spliced else new[0]), c)
+                return (st, c)
+            it = Interp({}, meths, self_obj=me, is_a=lambda k, c: k == c or L.is_a(k, c),
+                        overrides={'self._visit_statement': visit, 'self._is_empty_block': lambda b: not b.fields['stmts'], 'StmtBlock': lambda stmts: blk(*stmts),
+                                   'PassStmt': lambda loc: Obj('PassStmt')})
+            out = it.call_function(fn, [blk(first, mid, last), None], bound_self=True)
+            got = (out[0] if isinstance(out, tuple) else out).fields['stmts']
+            kept = any(s_ is last for s_ in got)
+            head_ok = got[:1] == [first] and all(any(s_ is n_ for s_ in got) for n_ in new)
+            ctx.check(head_ok and kept == falls, DCE, fn, '_Eliminator._visit_block',
+                      f'the middle statement becomes {what}{" (spliced block)" if spliced else ""}: what follows is {"kept" if falls else "dropped"}',
+                      f'the statement after it is {"kept" if kept else "dropped"} (rewritten statements present: {head_ok}): '
+                      + ('`if FAST: return x` / `return x + 1.0` leaves `return x; return x + 1.0` and simplify raises FPySyntaxError or KeyError' if not falls else
+                         'a statement that still runs on some path is removed'))
 
 
 # ----------------------------------------------------------------------
@@ -572,6 +630,12 @@ RULES = [
 from ..selftest import Mutant  # noqa: E402
 
 MUTANTS = [
+    Mutant('statements-left-behind-a-spliced-return', DCE, "                if stmts and self._never_falls_through(stmts[-1]):\n                    if stmt is not block.stmts[-1]:\n                        self.eliminated = True\n                    break\n", "", 'C07.G3',
+           'finding F110 before its repair: `if FAST: return x` / `return x + 1.0` makes simplify raise'),
+    Mutant('one-returning-arm-counts-as-returning', DCE, "                    any(self._never_falls_through(s) for s in stmt.ift.stmts)\n                    and any(", "                    any(self._never_falls_through(s) for s in stmt.ift.stmts)\n                    or any(", 'C07.G3',
+           'the statements after an if with one returning arm still run on the other path'),
+    Mutant('loop-fixpoint-compares-constants-with-!=', PE, "                if not _same_element(new, old):", "                if new != old:", 'C07.D1',
+           'finding F109 before its repair'),
     Mutant('copy-guard-ignores-loop-phis', COPY, "                if len(def_use.name_to_defs[d.site.expr.name]) != 1:\n                    continue\n",
            "                src = def_use.find_def_from_use(d.site.expr)\n                if any(isinstance(s, AssignDef) for s in def_use.successors[src]):\n                    continue\n", 'C07.G1',
            'seeded change C07e: a source reassigned in a loop body is followed by a phi, not by an assignment'),
